@@ -396,18 +396,18 @@ func evalLabCases(c *drv.Ctx, lp *LabProp, cands []*LabReplay) [][]Mismatch {
 		pt.Ref = refpeg.Run(pt.Case.G, pt.Entry, pt.Runes, refBudget(c))
 		pts = append(pts, pt)
 	}
-	runPoints(c, lp, l, pts)
-	out := make([][]Mismatch, len(cands))
 	scratch := drv.NewStats()
 	saved := c.Stats
 	c.Stats = scratch // judging candidates must not inflate the evidence counters
+	defer func() { c.Stats = saved }()
+	runPoints(c, lp, l, pts)
+	out := make([][]Mismatch, len(cands))
 	for i, pt := range pts {
 		if pt.Ref.Budget {
 			continue
 		}
 		out[i] = lp.Judge(c, pt, l)
 	}
-	c.Stats = saved
 	return out
 }
 
